@@ -120,9 +120,20 @@ Final(c, S) == Fold(c, Table0(c, S), 1)
 AllPts(T) == UNION {Range(T[n]) : n \in 1..Len(T)}
 \* a triangle up to cyclic rotation, keeping orientation: its set of directed edges
 TriKey(a, b, c) == {<<a, b>>, <<b, c>>, <<c, a>>}
+\* orientation: an instance placed through a map of negative determinant (a mirror among its edges or steps)
+\* is the re-wound copy, as Trimesh.apply_transform makes it (normals stay outward, the volume positive)
+SgnOf(e) == IF Det(e.l) < 0 THEN -1 ELSE 1
+RECURSIVE PathSgn(_, _, _, _)
+PathSgn(c, n, root, k) == IF n = root \/ n = 0 \/ k = 0 THEN 1
+                          ELSE SgnOf(c.cfg.edge[n]) * PathSgn(c, c.cfg.parent[n], root, k - 1)
+RECURSIVE StepSgn(_, _, _)
+StepSgn(c, n, k) == IF k > Len(c.steps) THEN 1
+                    ELSE (IF c.steps[k].k = "m" /\ InScope(c.steps[k], n) THEN SgnOf(c.steps[k]) ELSE 1) * StepSgn(c, n, k + 1)
+Sgn(c, n) == PathSgn(c, n, c.sub, Len(c.cfg.parent) + 1) * StepSgn(c, n, 1)
 NodeTris(c, T, n) ==     \* oriented placed triangles of node n as <<a, b, c>>
     LET g == c.geoms[c.cfg.geom[n]]
-    IN [k \in 1..Len(g.f) |-> <<P3(T[n][g.f[k][1]]), P3(T[n][g.f[k][2]]), P3(T[n][g.f[k][3]])>>]
+        flip == Sgn(c, n) < 0
+    IN [k \in 1..Len(g.f) |-> <<P3(T[n][g.f[k][1]]), P3(T[n][g.f[k][IF flip THEN 3 ELSE 2]]), P3(T[n][g.f[k][IF flip THEN 2 ELSE 3]])>>]
 TriSeq(c, T, S) ==
     LET RECURSIVE Ser(_)
         Ser(R) == IF R = {} THEN <<>>
@@ -130,6 +141,10 @@ TriSeq(c, T, S) ==
     IN Ser(S)
 BagOf(s) == [x \in {s[k] : k \in 1..Len(s)} |-> Cardinality({k \in 1..Len(s) : s[k] = x})]
 KeySeq(ts) == [k \in 1..Len(ts) |-> TriKey(ts[k][1], ts[k][2], ts[k][3])]
+\* Scene.triangles moves the triangles of a mirrored instance without re-winding them (the baked copies of
+\* dump / to_mesh are re-wound): where a mirror is involved and nothing was baked, triangles are compared
+\* without orientation (c.obs.tris_unoriented)
+UKeySeq(ts) == [k \in 1..Len(ts) |-> {ts[k][1], ts[k][2], ts[k][3]}]
 
 \* six times the signed volume of a closed triangle list (sum of determinants with the origin)
 RECURSIVE SumVol(_, _)
@@ -211,7 +226,8 @@ ClauseFor(c, S) ==
        ELSE IF c.obs.empty THEN "unexpected_empty_scene"
        ELSE IF \E p \in A : p[4] # 1 THEN "inexact"
        ELSE IF c.obs.bounds # BoundsOf(P) THEN "bounds"
-       ELSE IF c.obs.has_tris /\ BagOf(KeySeq(c.obs.tris)) # BagOf(KeySeq(ts)) THEN "triangles"
+       ELSE IF c.obs.has_tris /\ ~c.obs.tris_unoriented /\ BagOf(KeySeq(c.obs.tris)) # BagOf(KeySeq(ts)) THEN "triangles"
+       ELSE IF c.obs.has_tris /\ c.obs.tris_unoriented /\ BagOf(UKeySeq(c.obs.tris)) # BagOf(UKeySeq(ts)) THEN "triangles"
        ELSE IF c.obs.has_vol /\ c.obs.vol_exc # "" THEN "volume_raised"
        ELSE IF c.obs.has_vol /\ vol[2] # 1 THEN "inexact"
        ELSE IF c.obs.has_vol /\ c.obs.vol6 # vol[1] THEN "volume"
